@@ -338,7 +338,10 @@ func (fr *frame) applyContract(ct *Contract, key string, sig *types.Signature, a
 			continue
 		}
 		f := te.formula(cl.E)
-		vc.oblige("pre", fmt.Sprintf("%s#pre:%s", shortFn(fr.fn), short), pos, "requires "+cl.Text+" ["+cl.Src+"]", alive, f, cl.Tags)
+		if !cl.isInv() {
+			// object invariants ([inv]) are established by the constructor and are not re-proved per call
+			vc.oblige("pre", fmt.Sprintf("%s#pre:%s", shortFn(fr.fn), short), pos, "requires "+cl.Text+" ["+cl.Src+"]", alive, f, cl.Tags)
+		}
 		vc.assume(alive, f)
 	}
 	for _, cl := range ct.PanicsUnless {
@@ -351,6 +354,11 @@ func (fr *frame) applyContract(ct *Contract, key string, sig *types.Signature, a
 	// havoc modifies
 	for _, m := range ct.Modifies {
 		te.havocDesignator(m, st)
+	}
+	for _, g := range ct.Counts {
+		if _, ok := vc.eng.specs.ghostSort[g]; ok {
+			vc.ghostSet(st, g, "(+ "+vc.ghostGet(old, g)+" 1)")
+		}
 	}
 	if !ct.HasModifies && ct.Trusted {
 		// trusted contracts without a modifies clause are pure
